@@ -36,6 +36,7 @@ Exec::Exec(const Program& p, const ExecEnv& e, Exec* b) : P(p), env(e), base(b) 
   owned.assign(P.slots.size(), 0);
   out_hash.assign(P.calls.size(), {});
   done.assign(P.calls.size(), 0);
+  approx.assign(P.calls.size(), 0);
   if (env.use_model) {
     if (base && base->env.use_model)
       model = base->model;
@@ -586,10 +587,18 @@ void Exec::run_call(int idx) {
             got = t;
           }
           n_model_checks++;
-          if (got != mv.limbs[l].c[j]) {
+          bool differs = got != mv.limbs[l].c[j];
+          if (differs && mv.limbs[l].tol > 0) {
+            // edge-of-budget product: the documented bound (C01) allows E + 1/2 per coefficient
+            i128 d = got - mv.limbs[l].c[j];
+            if (d < 0) d = -d;
+            differs = (long double)d > ceill(mv.limbs[l].tol);
+          }
+          if (differs) {
             Violation v;
             v.kind = "model-mismatch";
-            v.detail = std::string(oi.name) + ": limb " + std::to_string(l) + " coeff " + std::to_string(j) + " got " + i128_str(got) + " expected " + i128_str(mv.limbs[l].c[j]);
+            v.detail = std::string(oi.name) + ": limb " + std::to_string(l) + " coeff " + std::to_string(j) + " got " + i128_str(got) + " expected " + i128_str(mv.limbs[l].c[j]) +
+                       (mv.limbs[l].tol > 0 ? " (allowed error " + std::to_string((long long)ceill(mv.limbs[l].tol)) + ")" : "");
             v.call = idx;
             v.op = c.op;
             v.slot = c.s[0];
@@ -602,6 +611,15 @@ void Exec::run_call(int idx) {
     }
   }
 
+  if (env.use_model && oi.level == 0 && oi.nslots > 0) {
+    // a value known only up to a tolerance is a leaf: it does not feed further modelled operations
+    MVal& mv = model.v[c.s[0]];
+    for (auto& l : mv.limbs)
+      if (l.tol > 0) approx[idx] = 1;
+    if (mv.type == T_ZV || mv.type == T_BIG)
+      for (auto& l : mv.limbs)
+        if (l.tol > 0) l.valid = false;
+  }
   if (!twin_copy.empty()) {
     // build a fresh table for exactly this call and run the explicit-table twin on the snapshot
     TableSpec ts;
